@@ -8,6 +8,15 @@ add('C09', 'recorder on the real inverse function, two-sided condition decided w
 add('C06', 'recorders on round_up_str_num / format_seconds_as_time / parse_hms with integer/Fraction oracles over enumerated strings and duration grids',
     'Enumerates the digit-string domain (bounded fraction alphabets beyond 3-4 digits), the 0.001 s grid with hour/minute carry windows and float residues, and 1-3 field h:m:s strings plus junk; each observed call judged online. Exploration, not proof.',
     'Digits beyond the fifth decimal treated as noise exactly as the property says; float comparisons use 1e-9 slack.', 'C06')
+add('C13', 'recorder on the real calc_uka_age_group + rule-text oracle with own date arithmetic, monotonicity and option/representation twin monitors',
+    'All boundary birth dates (within 3 days of every cut-off anniversary for every group-changing age) and strided background dates for 140 (quick) / all 1461 (thorough) match dates of a leap cycle x 3 categories x options, plus complete day-by-day sweeps for sampled match dates.',
+    'TF equality asserted 1 Jan-30 Sep, XC equality not asserted 1-30 Sep (season reading ambiguous); structural clauses for all dates.', 'C13')
+add('C04', 'pattern proxies on every exported PAT_* + set-algebra oracle on the real match vector; bounded-exhaustive and grammar-derived strings',
+    'Every distinct string any library pattern is asked about is judged on the whole family vector: unions exact, four measurement kinds pairwise disjoint, first-match classifiers consistent with the kind. Bounded exhaustive (length <= 3 over the partition alphabet; deeper in thorough) plus syntax-tree samples, mutants and splices.',
+    'Language equality without length bound cannot be decided by execution; strings beyond the enumeration bound are sampled from the patterns own syntax trees.', 'C04')
+add('C07', 'recorder on the real normalize_event_code; closure/idempotence/refusal judged online, equivalence classes from a denotation-preserving variant generator',
+    'Codes from the syntax tree of the current patterns and all scoring-table keys, each with its case/whitespace/suffix/trailing-zero variants, plus near-miss strings; every observed call judged.',
+    'Variants are equivalent by construction of the rewrites and kept only when the real checker accepts them; family clause one-directional.', 'C07')
 _all = ['C%02d' % i for i in range(1, 20)]
 for p in _all:
     if p not in CHECKS:
